@@ -99,10 +99,14 @@ def one_schedule(sched_mod, lp, policy, T: int, inputs, early, fail, reuse: str,
                 # code that looks at len())
                 given = source() if (not finite or STATE.get("input_kind", 0) == 0) else (
                     range(inputs) if STATE["input_kind"] == 1 else list(range(inputs)))
+                pauses = STATE.get("pauses") or ()
                 for i, result in enumerate(pool.imap_unordered(func, given)):
                     out.append(result)
                     if early is not None and i + 1 >= early:
                         break
+                    if i in pauses:
+                        # the consumer pauses (virtual time): workers run dry and wait; nothing may be lost
+                        sched.sleep(sched.me(), pauses[i])
                 if reuse == "same-context" and early is None and fail is None:
                     out2 = list(pool.imap_unordered(plain, range(T + 2)))
         except FAILURES as exc:
@@ -211,6 +215,9 @@ def run_controlled(case: dict) -> dict:
         seed = rng.randrange(1 << 30)
         policy = make_policy(sched_mod, case["policy"], seed)
         fail_type = rng.choice(sorted(FAIL_TYPES)) if fail is not None else "exception"
+        STATE["pauses"] = ({rng.randrange(0, 12): rng.choice([0.5, 3.0, 30.0, 600.0]) for _ in range(rng.randint(1, 2))}
+                           if rng.random() < 0.25 else None)
+        obs["schedules_with_consumer_pauses"] += int(bool(STATE["pauses"]))
         STATE["input_kind"] = rng.randrange(3)
         obs[f"input_kind:{('generator', 'range', 'list')[STATE['input_kind']]}"] += 1
         verdict, sched = one_schedule(sched_mod, lp, policy, T, n if n is not None else "inf", early, fail, reuse,
@@ -264,6 +271,7 @@ def run_dfs(case: dict) -> dict:
         prefix = stack.pop()
         policy = sched_mod.ReplayPolicy(prefix)
         STATE["input_kind"] = (T + n) % 3
+        STATE["pauses"] = None
         verdict, sched = one_schedule(sched_mod, lp, policy, T, n, early, fail, "after-exit" if n <= 1 else "none",
                                       fail_type)
         explored += 1
